@@ -118,6 +118,8 @@ def c17_pure(args):
     t = penman.parse(src)
     if args.get('strip'):
         g.epidata = {}
+    if args.get('implicit_top') and g.triples and g._top == g.triples[0][0]:
+        g._top = None          # a hand-built graph: the top is the first triple's source, not stored
     b = (snap(g), snap(t))
     results = {}
     for name in names:
@@ -149,6 +151,8 @@ def c17_pure(args):
     t2 = penman.parse(src)
     if args.get('strip'):
         g2.epidata = {}
+    if args.get('implicit_top') and g2.triples and g2._top == g2.triples[0][0]:
+        g2._top = None
     for name in reversed(names):
         if val(cs[name](g2, t2)) != results[name]:
             return '%s: result depends on call order' % name
@@ -225,6 +229,7 @@ def run_C17(R):
     for src in SRC:
         for strip in (False, True):
             R.check('C17.pure', {'src': src, 'calls': names, 'strip': strip})
+            R.check('C17.pure', {'src': src, 'calls': names, 'strip': strip, 'implicit_top': True})
             for _ in range(3 if R.quick else 30):
                 seq = [R.rnd.choice(names) for _ in range(R.rnd.randint(2, 8))]
                 R.check('C17.pure', {'src': src, 'calls': seq, 'strip': strip})
